@@ -49,6 +49,10 @@ func ruleR012(c *Ctx) {
 	gens := c.generatorFuncs(a, fwd)
 
 	// which context field does a `X.get(..)` call read: am or cm?
+	roles := c.fieldRoles(a)
+	for _, p := range roles.problems {
+		c.Undecided("funcGen#field-roles", token.NoPos, "%s", p)
+	}
 	fieldOfGet := func(call *ast.CallExpr) string {
 		sel, ok := ast.Unparen(call.Fun).(*ast.SelectorExpr)
 		if !ok {
@@ -101,7 +105,7 @@ func ruleR012(c *Ctx) {
 					return
 				}
 				if f := fieldOfGet(call); f != wantField {
-					c.Violation(key, pos, "%s addresses the %s with an index looked up in GeneratorContext.%s (it has to come from .%s)", what, map[string]string{"am": "stack frame", "cm": "closure context"}[wantField], f, wantField)
+					c.Violation(key, pos, "%s addresses the %s with an index looked up in GeneratorContext.%s (it has to come from .%s)", what, map[string]string{roles.am: "stack frame", roles.cm: "closure context"}[wantField], f, wantField)
 					return
 				}
 				// the literal has to live on the found branch of that lookup
@@ -129,14 +133,14 @@ func ruleR012(c *Ctx) {
 									return true // constant index: host function style access, not a compiled name
 								}
 								nGet++
-								checkIndex(t.Args[0], "am", "stack-access", t.Pos(), nGet)
+								checkIndex(t.Args[0], roles.am, "stack-access", t.Pos(), nGet)
 							}
 						}
 					}
 				case *ast.IndexExpr:
 					if id, ok := ast.Unparen(t.X).(*ast.Ident); ok && csObj != nil && info.ObjectOf(id) == csObj {
 						nCs++
-						checkIndex(t.Index, "cm", "context-access", t.Pos(), nCs)
+						checkIndex(t.Index, roles.cm, "context-access", t.Pos(), nCs)
 					}
 				}
 				return true
@@ -256,6 +260,29 @@ func (c *Ctx) checkRecursionSlot(a *genAnchors, gi *generatorInfo, argsAdd *type
 		}
 		return false
 	}
+	// the run time access operations: the slice whose length sizes the closure context (make([]V, len(ops)));
+	// its elements may be function values or descriptions that are interpreted later
+	var opsObj types.Object
+	ast.Inspect(gi.decl.Body, func(n ast.Node) bool {
+		call, ok := n.(*ast.CallExpr)
+		if !ok || len(call.Args) != 2 {
+			return true
+		}
+		if id, ok := ast.Unparen(call.Fun).(*ast.Ident); !ok || id.Name != "make" {
+			return true
+		}
+		if c.EnclosingFunc(call) == ast.Node(gi.decl) {
+			return true // allocated once per closure creation, inside the generated function
+		}
+		if ln, ok := ast.Unparen(call.Args[1]).(*ast.CallExpr); ok && len(ln.Args) == 1 {
+			if lid, ok := ast.Unparen(ln.Fun).(*ast.Ident); ok && lid.Name == "len" {
+				if sid, ok := ast.Unparen(ln.Args[0]).(*ast.Ident); ok {
+					opsObj = info.ObjectOf(sid)
+				}
+			}
+		}
+		return true
+	})
 	var addCalls, appendCalls []*ast.CallExpr
 	ast.Inspect(gi.decl.Body, func(n ast.Node) bool {
 		if call, ok := n.(*ast.CallExpr); ok {
@@ -264,6 +291,8 @@ func (c *Ctx) checkRecursionSlot(a *genAnchors, gi *generatorInfo, argsAdd *type
 			}
 			if id, ok := ast.Unparen(call.Fun).(*ast.Ident); ok && id.Name == "append" && len(call.Args) >= 2 {
 				if _, isSig := info.TypeOf(call.Args[1]).Underlying().(*types.Signature); isSig {
+					appendCalls = append(appendCalls, call)
+				} else if sid, ok := ast.Unparen(call.Args[0]).(*ast.Ident); ok && opsObj != nil && info.ObjectOf(sid) == opsObj {
 					appendCalls = append(appendCalls, call)
 				}
 			}
